@@ -171,8 +171,19 @@ def code_for_expr(expr: Any) -> cst.CSTNode:
     elif isinstance(value, code_ir.WithTagsCall):
       attr = daglish.Attr("item_to_tag")
       item_to_tag = state.call(value.item_to_tag, attr)
-      call_args = [cst.Arg(item_to_tag)]
       sorted_tags = sorted([tag for tag in value.tag_symbol_expressions])
+      if value.as_tagged_value:
+        # Plain (non-auto_config) code: `Tag.new(item)`; several tags nest.
+        node = item_to_tag
+        for tag in reversed(sorted_tags):
+          node = cst.Call(
+              cst.Attribute(
+                  value=cst.parse_expression(tag), attr=cst.Name("new")
+              ),
+              args=[cst.Arg(node)],
+          )
+        return node
+      call_args = [cst.Arg(item_to_tag)]
       for tag in sorted_tags:
         tag_name = cst.parse_expression(tag)
         call_args.append(cst.Arg(tag_name))
